@@ -57,12 +57,18 @@ static void *par_run (void *p) {
 	return NULL;
 }
 
+/* allocator of the library: malloc, except that every request fails while hm_fail is set (op strf) */
+static volatile int hm_fail;
+static ppointer hm_malloc (psize n) { return hm_fail ? NULL : malloc (n ? n : 1); }
+static ppointer hm_realloc (ppointer p, psize n) { return hm_fail ? NULL : realloc (p, n ? n : 1); }
+static void hm_free (ppointer p) { free (p); }
+
 int main (void) {
 	static char line[(1 << 22) + 64], op[16], arg[1 << 22];
 	PCryptoHash *slot[NSLOT] = { NULL, NULL, NULL, NULL };
 	int stype[NSLOT] = { 0, 0, 0, 0 };      /* the type each slot's object was created with */
 	int cur = 0;
-	p_libsys_init ();
+	{ PMemVTable vt = { hm_malloc, hm_realloc, hm_free }; p_libsys_init_full (&vt); }
 	while (fgets (line, sizeof line, stdin)) {
 		arg[0] = 0;
 		int n = sscanf (line, "%15s %s", op, arg);
@@ -121,6 +127,14 @@ int main (void) {
 		} else if (!strcmp (op, "updn") && n == 2) {
 			p_crypto_hash_update (h, NULL, strtoull (arg, NULL, 10));
 			puts ("ok");
+		} else if (!strcmp (op, "strf") && n == 1) {
+			/* get_string while the allocator refuses the result string: NULL; "reading the digest is repeatable" — the reads
+			 * that follow must still give the digest */
+			hm_fail = 1;
+			pchar *s = p_crypto_hash_get_string (h);
+			hm_fail = 0;
+			puts (s ? "not-null" : "null");
+			p_free (s);
 		} else if (!strcmp (op, "str") && n == 1) {
 			pchar *s = p_crypto_hash_get_string (h);
 			puts (s ? s : "null");
